@@ -1132,8 +1132,8 @@ def run(tier, seed, replay=None):
         cases += [random_case(ctx.rng, 10, 10) for _ in range(4000)]
         cases += [random_case(ctx.rng, 30, 25) for _ in range(500)]
         cases += list(small_scope_cases(4, 2, ctx.rng, per_state=None))
-        cases += list(small_scope_cases(5, 2, ctx.rng, per_state=12))
-        cases += list(small_scope_cases(3, 3, ctx.rng, per_state=14))
+        cases += [c for c in small_scope_cases(5, 2, ctx.rng, per_state=9) if len(trees.leaves(c["init"])) == 5]
+        cases += list(small_scope_cases(3, 3, ctx.rng, per_state=11))
     for c in cases:
         ctx.count("leaves=%d" % len(trees.leaves(c["init"])))
         ctx.count("rooted=%s" % c["rooted"])
